@@ -92,6 +92,9 @@ func typeName(t types.Type) string {
 		}
 		return n.Obj().Name()
 	}
+	if sl, ok := t.(*types.Slice); ok {
+		return "[]" + typeName(sl.Elem())
+	}
 	return t.String()
 }
 
